@@ -259,6 +259,39 @@ func TestC05_Arith(t *testing.T) {
 			}
 			prev = r
 			o := c05Operand{text: txt, r: r}
+			if rapid.IntRange(0, 4).Draw(t, "signed") == 0 {
+				// the operand written with a unary sign: -E where E denotes the
+				// negated number (or +E, -(-E)), E a literal or a field
+				var inner ast.Expr
+				sign := gen.Pick(t, "unary", []string{"-", "-", "+", "--"})
+				ntxt := txt
+				if sign == "-" {
+					if strings.HasPrefix(txt, "-") {
+						ntxt = txt[1:]
+					} else {
+						ntxt = "-" + txt
+					}
+				}
+				nr, _ := jv.ParseNum(ntxt)
+				if rapid.Bool().Draw(t, "signedlit") {
+					inner = ast.Lit(jv.Val{K: jv.Num, R: nr, T: ntxt})
+				} else {
+					k := fmt.Sprintf("s%d", i)
+					keys = append(keys, k)
+					nodes = append(nodes, run.Node{T: gen.Pick(t, "signedcarrier", []string{"json.Number", "decimal"}), S: ntxt})
+					inner = ast.F(k)
+				}
+				switch sign {
+				case "--":
+					o.expr = &ast.Unary{Op: "-", X: ast.Paren(&ast.Unary{Op: "-", X: inner})}
+				default:
+					o.expr = &ast.Unary{Op: sign, X: inner}
+				}
+				if rapid.IntRange(0, 3).Draw(t, "signedparen") == 0 {
+					o.expr = ast.Paren(o.expr)
+				}
+				return o
+			}
 			switch rapid.IntRange(0, 3).Draw(t, "supply") {
 			case 0:
 				o.expr = ast.Lit(jv.Val{K: jv.Num, R: r, T: txt})
